@@ -22,8 +22,8 @@ def main():
         if rc == 0:
             rc, o = sh('go build ./... && go test -vet=off -count=1 ./...', cwd='/repo')
             res['suite_passes'] = (rc == 0)
-            for i in range(1, 21):
-                c = 'C%02d' % i
+            only = os.environ.get('HARMLESS_CHECKS')
+            for c in (only.split(',') if only else ['C%02d' % i for i in range(1, 21)]):
                 rc, o = sh('./check %s' % c, cwd='/verif')
                 v = [l for l in o.split('\n') if l.startswith('VIOLATION')]
                 if rc != 0 or v:
@@ -37,6 +37,9 @@ def main():
     finally:
         sh('git -C /repo checkout -- .')
         sh('git -C /repo clean -fdq')
+    if os.environ.get('HARMLESS_CHECKS'):
+        print(pid, letter, 'applies', res.get('applies'), 'suite', res.get('suite_passes'), 'alarms', sorted(alarms), '(checks: %s)' % os.environ['HARMLESS_CHECKS'])
+        return
     d = '/verif/harmless/%s-%s' % (pid, letter)
     os.makedirs(d, exist_ok=True)
     shutil.copy(diff, d + '/patch.diff')
